@@ -13,26 +13,34 @@ CLAIM = ('Proved in Coq for the model, END TO END for Numbers naming with KeepLo
          'the suffix does not end in .gz); (2) without faults the cleanup keeps the first log_limit entries of that listing '
          'unchanged, turns the next compress_limit into archives with exactly the content of the files they replace, removes '
          'everything beyond, removes redundant archives first and touches nothing else (C07_cleanup_keeps_newest, '
-         'C07_compress_lossless). Not proved: that every history of the writer hands the cleanup a listing whose order is the '
-         'order of writing for all namings (that is (1) for restart siblings, numbers by C01) - so the end-to-end statement is '
-         'decided per explored history by executable oracles defined in Coq (Oracles/O_Stream.v) on directory snapshots of the '
-         'implementation after every flush and stop: the family files in reader order (archives decompressed) form a tail of the '
-         'logged stream, the numbers of plain files and archives respect the limits, every archive is complete and is a segment '
-         'of the logged stream, the file being written is plain (C07_tail_sound, C07_limits_sound: soundness of these oracles). '
-         'The model (synchronous and queued background cleanup, compression step by step) is tied to the code by the '
-         'correspondence check: partial. With cleanup in the background thread the same end-to-end statement holds under the '
-         "model's and harness's scheduling, in which each request is finished before the next operation "
-         '(C07_numbers_cleanup_bg). Also proved END TO END for NumbersDirect naming (cleanup in the logging thread): the file '
-         'being written, r<L>, is entry 0 of the listing and counts for the first limit, which the code raises from 0 to 1 - '
-         'this alone protects it -; in the end exactly the current file, the newest max(1,n)-1 closed files (plain) and the next '
-         'm (complete archives of exactly what the file held) exist, the current file is never compressed or removed, and what '
-         'survives is a suffix of what was written (C07_numbersdirect_cleanup, C07_numbersdirect_cleanup_vs_never, '
-         'C07_numbersdirect_cleanup_no_panic; side condition shown necessary: suffix not ending in .gz). These proofs found a '
-         'defect: the listing ordered number infixes as text, so from index 100000 on the cleanup took r99999 for the newest '
-         'file and, with NumbersDirect naming, removed the file being written; confirmed on the code with a pre-seeded '
-         "directory, repaired (d907c46: numeric order, C07_listing_number_order), the bound 'index below 100000' that the "
-         'theorems needed is gone, and the failing directories are corpus cases. ')
-THEOREMS = ["C07_numbers_cleanup", "C07_numbers_cleanup_vs_never", "C07_listing_sorted", "C07_listing_restart_order", "C07_listing_plain_last", "C07_compress_lossless", "C07_cleanup_keeps_newest", "C07_tail_sound", "C07_limits_sound", "C07_numbers_cleanup_bg", "C07_numbersdirect_cleanup", "C07_numbersdirect_cleanup_vs_never", "C07_numbersdirect_cleanup_no_panic", "C07_listing_number_order"]
+         'C07_compress_lossless). For custom formats the end-to-end statement is decided per explored history by executable '
+         'oracles defined in Coq (Oracles/O_Stream.v) on directory snapshots of the implementation after every flush and stop: '
+         'the family files in reader order (archives decompressed) form a tail of the logged stream, the numbers of plain files '
+         'and archives respect the limits, every archive is complete and is a segment of the logged stream, the file being '
+         'written is plain (C07_tail_sound, C07_limits_sound: soundness of these oracles). The model (synchronous and queued '
+         'background cleanup, compression step by step) is tied to the code by the correspondence check: partial. With cleanup '
+         "in the background thread the same end-to-end statement holds under the model's and harness's scheduling, in which each "
+         'request is finished before the next operation (C07_numbers_cleanup_bg). Also proved END TO END for NumbersDirect '
+         'naming (cleanup in the logging thread): the file being written, r<L>, is entry 0 of the listing and counts for the '
+         'first limit, which the code raises from 0 to 1 - this alone protects it -; in the end exactly the current file, the '
+         'newest max(1,n)-1 closed files (plain) and the next m (complete archives of exactly what the file held) exist, the '
+         'current file is never compressed or removed, and what survives is a suffix of what was written '
+         '(C07_numbersdirect_cleanup, C07_numbersdirect_cleanup_vs_never, C07_numbersdirect_cleanup_no_panic; side condition '
+         'shown necessary: suffix not ending in .gz). These proofs found a defect: the listing ordered number infixes as text, '
+         'so from index 100000 on the cleanup took r99999 for the newest file and, with NumbersDirect naming, removed the file '
+         'being written; confirmed on the code with a pre-seeded directory, repaired (d907c46: numeric order, '
+         "C07_listing_number_order), the bound 'index below 100000' that the theorems needed is gone, and the failing "
+         'directories are corpus cases. END TO END ALSO FOR THE TIME-STAMP NAMINGS (clock not going backwards): TimestampsDirect '
+         'and Timestamps with rCURRENT, any of the three strategies: the listing the cleanup works on is exactly the keys '
+         '(second, restart position) in descending order (C07_listing_key_order, C07_listing_ts); in the end exactly the current '
+         'file, the newest plain files and the next complete archives of exactly what they replace exist, survivors are a suffix '
+         'of what was written, closed / current are what the same history leaves without cleanup, and the oracles accept the '
+         "reader's view (C07_timestampsdirect_cleanup, _no_panic, _vs_never, _oracles; C07_timestamps_cleanup, _no_panic, "
+         "_vs_never, _oracles). 'Clock not going backwards' is necessary: after the clock is set back, the TimestampsDirect file "
+         'being written lists behind an older file and KeepLogFiles(1) removes it (TsdCleanup.clock_backwards_current_removed, '
+         'evaluated in Coq; the property does not quantify over clock jumps). NumbersDirect with the background thread and with '
+         'foreign files: C07_numbersdirect_cleanup_bg and C14. ')
+THEOREMS = ["C07_numbers_cleanup", "C07_numbers_cleanup_vs_never", "C07_listing_sorted", "C07_listing_restart_order", "C07_listing_plain_last", "C07_compress_lossless", "C07_cleanup_keeps_newest", "C07_tail_sound", "C07_limits_sound", "C07_numbers_cleanup_bg", "C07_numbersdirect_cleanup", "C07_numbersdirect_cleanup_vs_never", "C07_numbersdirect_cleanup_no_panic", "C07_listing_number_order", "C07_listing_key_order", "C07_listing_ts", "C07_timestampsdirect_cleanup", "C07_timestampsdirect_cleanup_no_panic", "C07_timestamps_cleanup", "C07_timestamps_cleanup_no_panic", "C07_timestampsdirect_oracles", "C07_timestamps_oracles", "C07_timestampsdirect_cleanup_vs_never", "C07_timestamps_cleanup_vs_never", "C07_bg_worlds_numbersdirect_cleanup", "C07_numbersdirect_cleanup_bg", "C07_numbersdirect_cleanup_stream_bg", "C07_numbersdirect_cleanup_no_panic_bg"]
 TRUSTED = ["modelled, not verified: flate2 (validated by decompressing every archive), read_dir, the keyed sort of the listing (modelled as insertion sort by the same key), "
            "the background cleanup thread is modelled as a queue drained at shutdown (interleavings with rotations: not explored here)"]
 ASSUMPTIONS = ["no I/O faults, no kill, no foreign files; the same cleanup strategy in all runs of a history"]
